@@ -1,5 +1,6 @@
 import Rtsp.Model.Sdp.Doc
 import Rtsp.Model.B64Std
+import Rtsp.Generated.Facts.Sdp
 /-
 `pkg/format`: the 22 format types, `format.Unmarshal` (payload-type / rtpmap / fmtp lookup, the
 selection table, each format's `unmarshal`) and each format's `RTPMap()` / `FMTP()`.  Core Lean only.
@@ -12,6 +13,7 @@ executable the harness runs the real parsers on every candidate blob of a text a
 on the operation line; the theorems state what they need from the oracle as hypotheses).
 -/
 namespace Rtsp.Sdp
+open Rtsp.Facts.Sdp
 
 abbrev Bytes := List UInt8
 
@@ -72,7 +74,7 @@ def pt : Format → Nat
   | av1 p .. | vp9 p .. | vp8 p .. | h265 p .. | h264 p .. | mpeg4video p .. | opus p .. | vorbis p ..
   | mpeg4audio p .. | latm p .. | ac3 p .. | speex p .. | g726 p .. | g711 p .. | lpcm p .. | klv p
   | generic p .. => p
-  | mpeg1video => 32 | mjpeg => 26 | mpeg1audio => 14 | g722 => 9 | mpegts => 33
+  | mpeg1video => mpeg1VideoPT | mjpeg => mjpegPT | mpeg1audio => mpeg1AudioPT | g722 => g722PT | mpegts => mpegtsPT
 
 /-- channel count written in the rtpmap of MPEG-4 audio -/
 def ascChannels (c : Asc) : Nat :=
@@ -210,7 +212,7 @@ def getFormatAttribute (attrs : List Attr) (pt : Nat) (key : Str) : Str :=
   | a :: rest =>
     if a.key = key then
       match cut 32 (trimSpace a.val) with
-      | some (p0, p1) => if parseUint 8 p0 = some pt then p1 else getFormatAttribute rest pt key
+      | some (p0, p1) => if parseUint attrPtBits p0 = some pt then p1 else getFormatAttribute rest pt key
       | none => getFormatAttribute rest pt key
     else getFormatAttribute rest pt key
 
@@ -271,12 +273,12 @@ def isG726Codec (c : Str) : Bool :=
 /-- The selection `switch` of `format.Unmarshal`, in source order (Go's `case a, b && c:` is
 `a || (b && c)`). -/
 def select (codec clock : Str) (pt : Nat) : Kind :=
-  let dyn := 96 ≤ pt ∧ pt ≤ 127
+  let dyn := dynLo ≤ pt ∧ pt ≤ dynHi
   if codec = b!"av1" ∧ clock = b!"90000" ∧ dyn then .av1
   else if codec = b!"vp9" ∧ clock = b!"90000" ∧ dyn then .vp9
   else if codec = b!"vp8" ∧ clock = b!"90000" ∧ dyn then .vp8
   else if codec = b!"h265" ∧ clock = b!"90000" ∧ dyn then .h265
-  else if codec = b!"h264" ∧ clock = b!"90000" ∧ (dyn ∨ pt = 35) then .h264
+  else if codec = b!"h264" ∧ clock = b!"90000" ∧ (dyn ∨ pt = h264StaticPT) then .h264
   else if codec = b!"mp4v-es" ∧ clock = b!"90000" ∧ dyn then .mpeg4video
   else if codec = b!"opus" ∨ (codec = b!"multiopus" ∧ dyn) then .opus
   else if codec = b!"vorbis" ∧ dyn then .vorbis
@@ -288,20 +290,20 @@ def select (codec clock : Str) (pt : Nat) : Kind :=
   else if codec = b!"pcma" ∨ (codec = b!"pcmu" ∧ dyn) then .g711
   else if codec = b!"l8" ∨ codec = b!"l16" ∨ (codec = b!"l24" ∧ dyn) then .lpcm
   else if codec = b!"smpte336m" ∧ dyn then .klv
-  else if pt = 32 then .mpeg1video
-  else if pt = 26 then .mjpeg
-  else if pt = 14 then .mpeg1audio
-  else if pt = 9 then .g722
-  else if pt = 0 ∨ pt = 8 then .g711
-  else if pt = 10 ∨ pt = 11 then .lpcm
-  else if pt = 33 then .mpegts
+  else if pt = ptMpeg1Video then .mpeg1video
+  else if pt = ptMjpeg then .mjpeg
+  else if pt = ptMpeg1Audio then .mpeg1audio
+  else if pt = ptG722 then .g722
+  else if pt = ptPcmu ∨ pt = ptPcma then .g711
+  else if pt = ptL16Stereo ∨ pt = ptL16Mono then .lpcm
+  else if pt = ptMpegts then .mpegts
   else .generic
 
 /-- an optional `strconv.ParseUint(val, 10, 31)` parameter: absent, a value, or an error -/
 def optUint31 (fm : List (Str × Str)) (k : Str) : Option (Option Nat) :=
   match lookupLast k fm with
   | none => some none
-  | some v => match parseUint 31 v with
+  | some v => match parseUint paramBits v with
     | some n => some (some n)
     | none => none
 
@@ -309,11 +311,11 @@ def optUint31 (fm : List (Str × Str)) (k : Str) : Option (Option Nat) :=
 def rateChannels (clock : Str) (dflt : Nat) : Option (Nat × Nat) :=
   match cut 47 clock with
   | some (r, c) =>
-    match parseUint 31 r, parseUint 31 c with
+    match parseUint rateBits r, parseUint rateBits c with
     | some r', some c' => if r' = 0 ∨ c' = 0 then none else some (r', c')
     | _, _ => none
   | none =>
-    match parseUint 31 clock with
+    match parseUint rateBits clock with
     | some r' => if r' = 0 then none else some (r', dflt)
     | none => none
 
@@ -407,19 +409,19 @@ def unmarshalKind (O : Oracle) (k : Kind) (c : Ctx) : Res Format :=
         | some b => if O.m4v b then some (some b) else none
         | none => none
     match optUint31 fm b!"profile-level-id", cfg with
-    | some p, some cf => .ok (mpeg4video c.pt (p.getD 1) cf)
+    | some p, some cf => .ok (mpeg4video c.pt (p.getD m4vDefaultProfileLevelID) cf)
     | _, _ => .err
   | .opus =>
     match cut 47 c.clock with
     | none => .err
     | some (r, ch) =>
       if c.codec = b!"opus" then
-        if parseUint 31 r = some 48000 ∧ parseUint 31 ch = some 2 then
+        if parseUint 31 r = some opusClock ∧ parseUint 31 ch = some 2 then
           .ok (opus c.pt (if lookupLast b!"sprop-stereo" fm = some b!"1" then 2 else 1))
         else .err
       else
         match parseUint 31 r, parseUint 31 ch with
-        | some r', some ch' => if r' = 48000 ∧ ch' ≠ 0 then .ok (opus c.pt ch') else .err
+        | some r', some ch' => if r' = opusClock ∧ ch' ≠ 0 then .ok (opus c.pt ch') else .err
         | _, _ => .err
   | .vorbis =>
     match cut 47 c.clock with
@@ -443,7 +445,7 @@ def unmarshalKind (O : Oracle) (k : Kind) (c : Ctx) : Res Format :=
       match lookupLast k fm with
       | none => some 0
       | some v => match parseUint 31 v with
-        | some n => if n > 100 then none else some n
+        | some n => if n > aacMaxLength then none else some n
         | none => none
     let cfg : Option (Option Asc) :=
       match lookupLast b!"config" fm with
@@ -474,14 +476,14 @@ def unmarshalKind (O : Oracle) (k : Kind) (c : Ctx) : Res Format :=
       if cp then
         if cf.isSome then .err
         else if c.clock ≠ b!"90000/1" then .err
-        else .ok (latm c.pt (p.getD 30) br true none sbr)
+        else .ok (latm c.pt (p.getD latmDefaultProfileLevelID) br true none sbr)
       else
         match cf with
         | none => .err
-        | some s => if s.same then .ok (latm c.pt (p.getD 30) br false (some s) sbr) else .err
+        | some s => if s.same then .ok (latm c.pt (p.getD latmDefaultProfileLevelID) br false (some s) sbr) else .err
     | _, _, _ => .err
   | .ac3 =>
-    match rateChannels c.clock 6 with
+    match rateChannels c.clock ac3DefaultChannels with
     | some (r, ch) => .ok (ac3 c.pt r ch)
     | none => .err
   | .speex =>
@@ -522,9 +524,12 @@ def unmarshalKind (O : Oracle) (k : Kind) (c : Ctx) : Res Format :=
     | some clk => .ok (generic c.pt c.rtpMap (mapOf fm) clk)
     | none => .err
 
+/-- the selection switch has the shape modelled by `select` (a changed number of cases breaks the build) -/
+example : selectionCases = 23 := rfl
+
 /-- `format.Unmarshal(md, payloadTypeStr)` -/
 def unmarshalFormat (O : Oracle) (m : MediaD) (payloadTypeStr : Str) : Res Format :=
-  match parseUint 8 (replaceSmartPayloadType payloadTypeStr m.attrs) with
+  match parseUint ptBits (replaceSmartPayloadType payloadTypeStr m.attrs) with
   | none => .err
   | some pt =>
     let rtpMap := getFormatAttribute m.attrs pt b!"rtpmap"
